@@ -230,6 +230,9 @@ func c14Families() []c14Family {
 		c14LongNames(),
 		{set: []string{"a"}, alpha: []string{"a", "b", ",", " ", "\t", "A", "\v"}},
 		{set: []string{"a", "ab", "b"}, alpha: []string{"a", "b", "c", ",", " ", "\t", "A"}},
+		// more names than the longest name has bytes
+		{set: []string{"a", "b", "c", "d", "e", "f", "g", "h"}, alpha: []string{"a", "c", "h", "i", ",", " "}},
+		{set: []string{"h0", "h1", "h2", "h3", "h4", "h5", "h6", "h7", "h8", "h9", "i0"}, alpha: []string{"h0", "h5", "i0", "i1", ",", " "}},
 		{set: []string{"b", "abc"}, alpha: []string{"a", "b", "c", ",", " ", "\t", "\r"}},
 		{set: []string{"a_b", "a.b", "a~", "a"}, alpha: []string{"a", "b", "_", ".", "~", ",", " ", "\t"}},
 		{set: []string{"x-a", "x-b"}, alpha: []string{"x-a", "x-b", "x-", "x-ab", "x", ",", " ", "\t"}, long: true},
@@ -492,6 +495,36 @@ func checkC14(c *vlib.Ctx) (string, string) {
 						ck.Report(k, vlib.Failf("browser-style list %q of allowed names %q is not approved", lines, f.set))
 					}
 					tryInternal(f, ss, lines)
+				}
+			}
+		}
+		// E6b: many field lines: 0..18 empty lines (16 are tolerated) before, between and after the names of every sorted
+		// sublist, one name per line - how many lines there are is measured against nothing but the limit of 16
+		if len(f.set) <= 12 {
+			sorted := ref.SortedUnique(f.set)
+			for mask := 1; mask < 1<<len(sorted); mask++ {
+				var sub []string
+				for j := range sorted {
+					if mask&(1<<j) != 0 {
+						sub = append(sub, sorted[j])
+					}
+				}
+				for empties := 0; empties <= 18; empties++ {
+					for where := 0; where < 3; where++ {
+						var lines []string
+						pad := make([]string, empties)
+						switch where {
+						case 0:
+							lines = append(append(lines, pad...), sub...)
+						case 1:
+							lines = append(append(lines, sub...), pad...)
+						default:
+							lines = append(append(append(lines, sub[:len(sub)/2]...), pad...), sub[len(sub)/2:]...)
+						}
+						c.Evaluations.Add(1)
+						c.Transitions.Add(1)
+						tryInternal(f, ss, lines)
+					}
 				}
 			}
 		}
